@@ -60,6 +60,12 @@ func VerifyNameErrorNSEC(msg *dns.Msg, nsecSet []dns.RR) error {
 	if covering == nil {
 		return ErrNSECMissingCoverage
 	}
+	if nsecMisusedFor(covering, qname) {
+		return ErrNSECBadDelegation
+	}
+	if nsecProvesENT(covering, qname) {
+		return ErrNSECMissingCoverage
+	}
 
 	ce := closestEncloserFromNSEC(qname, covering)
 	if ce == "" {
@@ -77,10 +83,45 @@ func VerifyNameErrorNSEC(msg *dns.Msg, nsecSet []dns.RR) error {
 	for _, rr := range nsecSet {
 		nsec := rr.(*dns.NSEC)
 		if nsecCovers(nsec.Header().Name, nsec.NextDomain, wildcard) {
+			if nsecMisusedFor(nsec, wildcard) {
+				return ErrNSECBadDelegation
+			}
+			if nsecProvesENT(nsec, wildcard) {
+				return ErrNSECMissingCoverage
+			}
 			return nil
 		}
 	}
 	return ErrNSECMissingCoverage
+}
+
+// nsecMisusedFor reports whether nsec must not be used to deny name, or
+// anything at or below it (RFC 6840 §4.1): its owner is a proper ancestor of
+// name and it is an "ancestor delegation" NSEC (NS set, SOA clear) or carries
+// DNAME. Such a record belongs to the parent side of a zone cut, or to a
+// redirected subtree: names below it are the child's, or the target's, to
+// speak for, and the parent's chain says nothing about them. The aggressive
+// classifier already refuses these; the exact validators must as well, or a
+// genuine, validly signed delegation NSEC replayed under a forged NXDOMAIN
+// denies names in the child with the AD bit set.
+func nsecMisusedFor(nsec *dns.NSEC, name string) bool {
+	owner := dns.Fqdn(nsec.Header().Name)
+	name = dns.Fqdn(name)
+	if dns.CountLabel(name) <= dns.CountLabel(owner) || !dnsname.Sub(owner, name) {
+		return false
+	}
+	return typesSet(nsec.TypeBitMap, dns.TypeDNAME) ||
+		(typesSet(nsec.TypeBitMap, dns.TypeNS) && !typesSet(nsec.TypeBitMap, dns.TypeSOA))
+}
+
+// nsecProvesENT reports whether the covering NSEC's next name lies strictly
+// below name. Then name is an empty non-terminal: it exists (RFC 8020,
+// RFC 8198 Appendix B), and the span that "covers" it proves the opposite of
+// a name error.
+func nsecProvesENT(nsec *dns.NSEC, name string) bool {
+	next := dns.Fqdn(nsec.NextDomain)
+	name = dns.Fqdn(name)
+	return dns.CountLabel(next) > dns.CountLabel(name) && dnsname.Sub(name, next)
 }
 
 // closestEncloserFromNSEC derives the closest encloser of qname from the
@@ -164,6 +205,14 @@ func VerifyNODATANSEC(msg *dns.Msg, nsecSet []dns.RR) error {
 			if q.Qtype == dns.TypeDS && typesSet(nsec.TypeBitMap, dns.TypeSOA) {
 				return ErrNSECBadDelegation
 			}
+			// And the converse: at a delegation point (NS set, SOA clear)
+			// the parent speaks for DS only. Every other type there is
+			// the child's; the parent's NSEC cannot deny it (RFC 6840
+			// §4.1).
+			if q.Qtype != dns.TypeDS && typesSet(nsec.TypeBitMap, dns.TypeNS) &&
+				!typesSet(nsec.TypeBitMap, dns.TypeSOA) {
+				return ErrNSECBadDelegation
+			}
 
 			return nil
 		}
@@ -187,6 +236,9 @@ func VerifyNODATANSEC(msg *dns.Msg, nsecSet []dns.RR) error {
 	}
 	if covering == nil {
 		return ErrNSECMissingCoverage
+	}
+	if nsecMisusedFor(covering, qname) {
+		return ErrNSECBadDelegation
 	}
 	ce := closestEncloserFromNSEC(qname, covering)
 	if ce == "" {
